@@ -43,7 +43,7 @@ class FakeLifetime:
 
 
 class Setup:
-    def __init__(self, W, kind, n_extra, solver="manual", positive_diag=True, concrete_extra=None):
+    def __init__(self, W, kind, n_extra, solver="manual", positive_diag=True, concrete_extra=None, preset=None, tag=""):
         import flodym.stocks as st
         from flodym.flodym_arrays import StockArray
         from .dimensions import mk_set
@@ -63,9 +63,16 @@ class Setup:
             self.dims = [T] + ex
             self.n = W.size_of(T)
             self.esizes = [W.size_of(d) for d in ex]
-            stock = W.array("stock", self.dims, cls=StockArray)
-            inflow = W.array("inflow", self.dims, cls=StockArray)
-            outflow = W.array("outflow", self.dims, cls=StockArray)
+            from fvc import world as _world
+
+            preset = preset or {}
+
+            def mk(nm):
+                if nm in preset:
+                    return _world.make_array(nm + tag, self.dims, cls=StockArray, values=preset[nm])
+                return W.array(nm + tag, self.dims, cls=StockArray)
+
+            stock, inflow, outflow = mk("stock"), mk("inflow"), mk("outflow")
             dt = W.ndarray("dt", [self.n])
             dtf = z3.Function("dt", z3.IntSort(), z3.RealSort())
             zn = to_int(self.n)
@@ -110,34 +117,50 @@ class Setup:
             from flodym.lifetime_models import NormalLifetime, WeibullLifetime, LogNormalLifetime, FixedLifetime
 
             rng = W.rng
-            n = W.sizes.get("t") or rng.choice([3, 4, 5, 6])
-            n = max(3, int(n))
-            grid = W.grid_kind if getattr(W, "grid_kind", None) else rng.choice(["unit", "const", "uneven"])
-            self.grid = grid
-            if grid == "unit":
-                items = [2000 + k for k in range(n)]
-            elif grid == "const":
-                step = rng.choice([2, 5])
-                items = [2000 + step * k for k in range(n)]
+            preset = preset or {}
+            if "time_items" in W.inputs:
+                items = W.inputs["time_items"]
+                n = len(items)
             else:
-                items, y = [], 2000
-                for k in range(n):
-                    items.append(y)
-                    y += rng.choice([1, 2, 3, 7])
-            W.inputs["time_items"] = items
+                n = W.sizes.get("t") or rng.choice([3, 4, 5, 6])
+                n = max(3, int(n))
+                grid = W.grid_kind if getattr(W, "grid_kind", None) else rng.choice(["unit", "const", "uneven"])
+                self.grid = grid
+                if grid == "unit":
+                    items = [2000 + k for k in range(n)]
+                elif grid == "const":
+                    step = rng.choice([2, 5])
+                    items = [2000 + step * k for k in range(n)]
+                else:
+                    items, y = [], 2000
+                    for k in range(n):
+                        items.append(y)
+                        y += rng.choice([1, 2, 3, 7])
+                W.inputs["time_items"] = items
             T = Dimension(name="Time", letter="t", items=items, dtype=int)
             ex = [W.dim(l) for l in EXTRA[:n_extra]]
             self.dims = [T] + ex
             self.n = n
             self.esizes = [len(d.items) for d in ex]
             ds = DimensionSet(dim_list=self.dims)
-            stock = W.array("stock", self.dims, cls=StockArray)
-            inflow = W.array("inflow", self.dims, cls=StockArray)
-            outflow = W.array("outflow", self.dims, cls=StockArray)
+            def mkc(nm):
+                if nm in preset:
+                    return StockArray(dims=ds, values=np.array(preset[nm], dtype=float, copy=True), name=nm)
+                if nm + "_values" in W.inputs and tag:
+                    return StockArray(dims=ds, values=np.array(W.inputs[nm + "_values"], dtype=float), name=nm)
+                a = W.array(nm, self.dims, cls=StockArray)
+                W.inputs[nm + "_values"] = a.values.tolist()
+                return a
+
+            stock, inflow, outflow = mkc("stock"), mkc("inflow"), mkc("outflow")
             if getattr(W, "nonneg_inflow", False):
                 inflow.values[...] = np.abs(inflow.values)
             args = dict(dims=ds, stock=stock, inflow=inflow, outflow=outflow, name="s", time_letter="t")
-            if kind != "flow":
+            if kind != "flow" and getattr(W, "_shared_lifetime", None) is not None:
+                args["lifetime_model"] = W._shared_lifetime
+                if kind == "stock":
+                    args["solver"] = solver
+            elif kind != "flow":
                 shape = tuple([n] + self.esizes)
                 mean = np.array([[3.0 + rng.random() * 4 for _ in range(int(np.prod(shape[1:])) or 1)] for _ in range(n)]).reshape(shape)
                 std = np.array([[0.8 + rng.random() for _ in range(int(np.prod(shape[1:])) or 1)] for _ in range(n)]).reshape(shape)
@@ -149,6 +172,7 @@ class Setup:
                 else:
                     lt = WeibullLifetime(dims=ds, time_letter="t", weibull_shape=1.0 + std, weibull_scale=mean)
                 W.inputs["lifetime"] = which
+                W._shared_lifetime = lt
                 args["lifetime_model"] = lt
                 if kind == "stock":
                     args["solver"] = solver
@@ -682,3 +706,150 @@ def u_stock_balance(W, sk):
     else:
         SL.check_raises(W, "check_stock_balance.rejects_perturbed_arrays", out2, RuntimeError)
     SL.check_unchanged(W, "stock_balance", snaps)
+
+
+@unit(
+    "stocks.dsm_two_extra_dims.bounded",
+    props=["C03", "C09", "C10", "C16"],
+    targets=STOCK_TARGETS,
+    skeletons=lambda tier: [{"extra": 2, "solver": s, "model": m} for s in ("manual", "lapack") for m in ("stock", "inflow")][: (4 if tier == "thorough" else 3)],
+    mode="bounded",
+    note="run-time evaluation of the same contracts on real models with two non-time dimensions and per-cell lifetime parameters (bounded companion of the symbolic units, which take 0-1 extra dimensions in the quick tier)",
+)
+def u_dsm_two_extra_bounded(W, sk):
+    if sk["model"] == "stock":
+        u_stock_driven(W, {"extra": 2, "solver": sk["solver"]})
+    else:
+        u_inflow_driven(W, {"extra": 2})
+
+
+# ----------------------------------------------------------------------------------------
+# C10: both solvers agree; inflow-driven and stock-driven models are inverse
+
+
+def solved_row(W, S, stock0, solution, r):
+    """row_x(k) for lemma_tri_unique: the row equation of  x = inflow * dt  (bridged to the solver's solution)"""
+    sf = S.rd(S.sf)
+    inflow = S.rd(S.s.inflow.values)
+    x = lambda j: inflow(j, *r) * S.dtk(j)
+
+    def row(k):
+        if solution is not None and W.symbolic:
+            W.lemma_sum_ext("agree.x_is_solution", 0, k, lambda j: sf(k, j, *r) * x(j), lambda j: sf(k, j, *r) * solution(j, *r))
+        return row_equation(W, S, lambda j, *rr: x(j), stock0, k, r)
+
+    return x, row
+
+
+def compare_results(W, name, S1, S2, agree, rs):
+    """inflow, outflow and both cohort tables of two models coincide (given agree(k): x1(k) == x2(k))"""
+    n = S1.n
+    i1, i2 = S1.rd(S1.s.inflow.values), S2.rd(S2.s.inflow.values)
+    o1, o2 = S1.rd(S1.s.outflow.values), S2.rd(S2.s.outflow.values)
+    sb1, sb2 = S1.rd(S1.s._stock_by_cohort), S2.rd(S2.s._stock_by_cohort)
+    ob1, ob2 = S1.rd(S1.s._outflow_by_cohort), S2.rd(S2.s._outflow_by_cohort)
+    if not W.symbolic:
+        rngs = [(0, n)] + S1.extra_ranges()
+        W.forall_range(f"{name}.same_inflow", rngs, lambda idx: W.num_eq(i1(*idx), i2(*idx)))
+        W.forall_range(f"{name}.same_outflow", rngs, lambda idx: W.num_eq(o1(*idx), o2(*idx)))
+        rr = [(0, n), (0, n)] + S1.extra_ranges()
+        W.forall_range(f"{name}.same_stock_by_cohort", rr, lambda idx: W.num_eq(sb1(*idx), sb2(*idx)))
+        W.forall_range(f"{name}.same_outflow_by_cohort", rr, lambda idx: W.num_eq(ob1(*idx), ob2(*idx)))
+        return
+    for r in rs:
+        tag = "" if not any(isinstance(a, int) for a in r) else f"[{','.join(map(str, r))}]"
+        ag = agree[r] if isinstance(agree, dict) else agree
+        k = W.fresh_int("cmp_k", 0, n)
+        ag(k)
+        W.prove(f"{name}.same_inflow{tag}", W.num_eq(i1(k, *r), i2(k, *r)))
+        t = W.fresh_int("cmp_t", 0, n)
+        c = W.fresh_int("cmp_c", 0, n)
+        ag(c)
+        W.prove(f"{name}.same_stock_by_cohort{tag}", W.num_eq(sb1(t, c, *r), sb2(t, c, *r)))
+        W.prove(f"{name}.same_outflow_by_cohort{tag}", W.num_eq(ob1(t, c, *r), ob2(t, c, *r)))
+        # outflow = sum over cohorts of equal summands
+        W.lemma_sum_ext(f"{name}.same_outflow{tag}.summands", 0, n, lambda cc: ob1(t, cc, *r), lambda cc: ob2(t, cc, *r), using=ag)
+        W.c.assume(to_real(o1(t, *r)) == to_real(W.sum1("c", 0, n, lambda cc: ob1(t, cc, *r))), why="outflow_is_sum_of_cohorts (proved in the compute units)")
+        W.c.assume(to_real(o2(t, *r)) == to_real(W.sum1("c", 0, n, lambda cc: ob2(t, cc, *r))), why="outflow_is_sum_of_cohorts (proved in the compute units)")
+        W.prove(f"{name}.same_outflow{tag}", W.num_eq(o1(t, *r), o2(t, *r)))
+
+
+@unit(
+    "stocks.solvers_agree",
+    props=["C10"],
+    targets=["flodym.stocks.StockDrivenDSM._compute_inflow_manual", "flodym.stocks.StockDrivenDSM._compute_inflow_lapack", "flodym.stocks.StockDrivenDSM.compute"],
+    skeletons=lambda tier: [{"extra": 0, "sizes": []}, {"extra": 1, "sizes": [1]}] + ([{"extra": 1, "sizes": [2]}] if tier == "thorough" else []),
+    stubs=["flodym.lifetime_models.LifetimeModel.sf", "flodym.lifetime_models.LifetimeModel.pdf", "flodym.lifetime_models.UnevenTimeDim.interval_lengths", "scipy.linalg.solve_triangular"],
+    note="same prescribed stock, same survival table, same grid: the 'manual' and the 'lapack' model give the same inflow, outflow and cohort tables (TRI-UNIQUE)",
+)
+def u_solvers_agree(W, sk):
+    S1 = Setup(W, "stock", sk["extra"], solver="manual", concrete_extra=sk["sizes"])
+    driver = S1.s.stock.values.copy()
+    S2 = Setup(W, "stock", sk["extra"], solver="lapack", concrete_extra=sk["sizes"], preset={"stock": driver}, tag="2")
+    out1, stock0, sol1 = run_stock_driven(W, S1)
+    out2, _, sol2 = run_stock_driven(W, S2)
+    W.prove("agree.both_return", out1.kind == "return" and out2.kind == "return", detail=f"{out1!r} {out2!r}")
+    if out1.kind != "return" or out2.kind != "return":
+        return
+    n = S1.n
+    sf = S1.rd(S1.sf)
+    rs = list(itertools.product(*[range(int(e)) for e in S1.esizes])) if W.symbolic else [()]
+    agree = {}
+    if W.symbolic:
+        W.prove("agree.contracts_available", sol1 is not None and sol2 is not None)
+        if sol1 is None or sol2 is None:
+            return
+        for r in rs:
+            x1, row1 = solved_row(W, S1, stock0, sol1, r)
+            x2, row2 = solved_row(W, S2, stock0, sol2, r)
+            agree[r] = W.lemma_tri_unique(f"agree{list(r)}", n, row1, row2, lambda k: sf(k, k, *r) != 0, x1, x2)
+    compare_results(W, "agree", S1, S2, agree, rs)
+
+
+@unit(
+    "stocks.round_trip",
+    props=["C10"],
+    targets=["flodym.stocks.InflowDrivenDSM.compute", "flodym.stocks.StockDrivenDSM.compute"],
+    skeletons=lambda tier: [{"extra": 0, "solver": "manual", "sizes": None}, {"extra": 1, "solver": "manual", "sizes": None}, {"extra": 0, "solver": "lapack", "sizes": []}, {"extra": 1, "solver": "lapack", "sizes": [1]}],
+    stubs=["flodym.lifetime_models.LifetimeModel.sf", "flodym.lifetime_models.LifetimeModel.pdf", "flodym.lifetime_models.UnevenTimeDim.interval_lengths", "scipy.linalg.solve_triangular"],
+    note="stock computed by an inflow-driven model, fed to a stock-driven model with the same survival table: original inflow, same outflow, same cohort tables (no sign assumption on the inflow). The converse direction is the obligation compute.stock_reproduced of stocks.stock_driven.compute.",
+)
+def u_round_trip(W, sk):
+    A = Setup(W, "inflow", sk["extra"], concrete_extra=sk["sizes"])
+    inflow0 = A.rd(A.s.inflow.values.copy())
+    outA = W.call(lambda: A.s.compute())
+    W.prove("round_trip.forward_returns", outA.kind == "return", detail=repr(outA))
+    if outA.kind != "return":
+        return
+    B = Setup(W, "stock", sk["extra"], solver=sk["solver"], concrete_extra=sk["sizes"], preset={"stock": A.s.stock.values.copy()}, tag="2")
+    outB, stock0, sol = run_stock_driven(W, B)
+    W.prove("round_trip.backward_returns", outB.kind == "return", detail=repr(outB))
+    if outB.kind != "return":
+        return
+    n = A.n
+    sf = A.rd(A.sf)
+    if W.symbolic:
+        W.prove("round_trip.contracts_available", sol is not None)
+        if sol is None:
+            return
+        rs = [tuple(W.fresh_int(f"rt_r{j}", 0, e) for j, e in enumerate(A.esizes))] if sk["solver"] == "manual" else list(itertools.product(*[range(int(e)) for e in A.esizes]))
+        agree = {}
+        for r in rs:
+            xa = lambda j, r=r: inflow0(j, *r) * A.dtk(j)
+
+            def row_a(k, r=r, xa=xa):
+                # the forward model's stock is the sum over all cohorts; cut it down to the triangular row
+                full = lambda c: xa(c) * sf(k, c, *r)
+                W.lemma_sum_split("round_trip.forward_row.split", 0, k + 1, n, full)
+                W.lemma_sum_zero("round_trip.forward_row.tail", k + 1, n, full)
+                W.lemma_sum_unfold_last("round_trip.forward_row.diagonal", 0, k + 1, full)
+                W.lemma_sum_ext("round_trip.forward_row.reorder", 0, k, full, lambda j: sf(k, j, *r) * xa(j))
+                W.lemma_sum_ext("round_trip.forward_row.summands", 0, n, lambda c: inflow0(c, *r) * A.dtk(c) * sf(k, c, *r), full)
+                return row_equation(W, B, lambda j, *rr: xa(j), stock0, k, r)
+
+            xb, row_b = solved_row(W, B, stock0, sol, r)
+            agree[r] = W.lemma_tri_unique(f"round_trip{[a for a in r if isinstance(a, int)]}", n, row_a, row_b, lambda k, r=r: sf(k, k, *r) != 0, xa, xb)
+        # 'agree' relates A's inflow*dt and B's inflow*dt; compare_results reads the inflow arrays of A and B
+        compare_results(W, "round_trip", A, B, agree, rs)
+    else:
+        compare_results(W, "round_trip", A, B, None, None)
